@@ -42,6 +42,9 @@ func checkYen(c yenCase) *vk.Failure {
 		// the search stops at the target, so an arc that is never examined
 		// cannot be reported; only the absence of faults is asserted.
 		vk.Class("yen=negative-arc")
+		if c.K < 0 && n > 7 {
+			return nil // would enumerate every loopless path of a large graph
+		}
 		_, f := outcome("negative", what, false, true, func() { path.YenKShortestPaths(g, c.K, cost, src, dst) })
 		return f
 	}
@@ -173,16 +176,16 @@ func drawYen(t *rapid.T) yenCase {
 	var c yenCase
 	var n int
 	switch sz := rapid.IntRange(0, 99).Draw(t, "sizeclass"); {
-	case sz < 3:
+	case sz < 2:
 		n = rapid.IntRange(0, 1).Draw(t, "n")
-	case sz < 55:
+	case sz < 40:
 		n = rapid.IntRange(2, 6).Draw(t, "n")
-	case sz < 90:
+	case sz < 88:
 		n = rapid.IntRange(7, 9).Draw(t, "n")
 	default:
 		n = rapid.IntRange(10, 16).Draw(t, "n")
 	}
-	classes := []int{clsTree, clsSparse, clsSparse, clsDense, clsDisconnected, clsSinks, clsZeroCycle}
+	classes := []int{clsDense, clsSparse, clsSparse, clsDense, clsTree, clsDisconnected, clsSinks, clsZeroCycle}
 	if n >= 10 {
 		classes = []int{clsTree, clsSparse, clsDisconnected}
 	}
@@ -200,11 +203,14 @@ func drawYen(t *rapid.T) yenCase {
 	}
 	c.S = rapid.IntRange(0, hi).Draw(t, "s")
 	c.T = rapid.IntRange(0, hi).Draw(t, "t")
+	if c.T == c.S && hi > 0 && rapid.IntRange(0, 7).Draw(t, "allowself") > 0 {
+		c.T = (c.S + 1 + rapid.IntRange(0, hi-1).Draw(t, "tshift")) % (hi + 1)
+	}
 	c.K = rapid.SampledFrom([]int{-1, -1, 0, 1, 2, 2, 3, 5, 5, 50}).Draw(t, "k")
 	c.Cost = vk.F(rapid.SampledFrom([]float64{0, 0.5, 1, 3, math.Inf(1), math.Inf(1)}).Draw(t, "cost"))
 	return c
 }
 
 func TestYen(t *testing.T) {
-	vk.Run(t, "yen", vk.Opts{Quick: 8000, Thorough: 200000}, drawYen, checkYen)
+	vk.Run(t, "yen", vk.Opts{Quick: 12000, Thorough: 300000}, drawYen, checkYen)
 }
